@@ -10,6 +10,54 @@ def _drop_msg(fn):
     return b
 
 
+def _peel(n):
+    while n.get('kind') in ('ImplicitCastExpr', 'ParenExpr', 'MaterializeTemporaryExpr', 'CXXBindTemporaryExpr', 'ExprWithCleanups') and n.get('inner'):
+        n = n['inner'][0]
+    while n.get('kind') == 'CXXConstructExpr' and len(n.get('inner', [])) == 1:
+        n = _peel(n['inner'][0])
+    return n
+
+
+def _container(tr, node):
+    n = _peel(node)
+    if n.get('kind') == 'CXXMemberCallExpr' and n['inner'][0].get('kind') == 'MemberExpr' and n['inner'][0].get('name') in ('begin', 'end', 'cbegin', 'cend'):
+        return n['inner'][0]['inner'][0]
+    raise Exception('iterator expression is not x.begin() / x.end()')
+
+
+def _src_of(tr, cnode):
+    t = tr.ntype(cnode)
+    e = tr.expr(cnode)
+    if t.base == 'struct plist':
+        return '(%s).src' % e
+    if t.base == 'vec_pstr':
+        return '(const void *)(%s).ptr' % e
+    raise Exception('range over %s' % t.c())
+
+
+def _coll_ctor(is_set):
+    def b(tr, n, obj, args, argnodes):
+        a, z = _container(tr, argnodes[0]), _container(tr, argnodes[1])
+        if tr.expr(a) != tr.expr(z):
+            raise Exception('range constructor over two different containers')
+        return 'coll_make(%s, %d)' % (_src_of(tr, a), is_set)
+    return b
+
+
+def _sort(tr, n, obj, args, argnodes):
+    a = _container(tr, argnodes[0])
+    return 'coll_sort(%s)' % tr.addr(tr.expr(a))
+
+
+def _setdiff(tr, n, obj, args, argnodes):
+    a, b = _container(tr, argnodes[0]), _container(tr, argnodes[2])
+    out = _peel(argnodes[4])
+    if out.get('kind') != 'CallExpr' or 'back_inserter' not in str(out['inner'][0]):
+        raise Exception('set_difference output is not a back_inserter')
+    ea, eb, eo = tr.expr(a), tr.expr(b), tr.addr(tr.expr(out['inner'][1]))
+    return 'verif_set_difference((%s).src, (%s).uniq && (%s).sorted, (%s).src, (%s).uniq && (%s).sorted, %s)' % (ea, ea, ea, eb, eb, eb, eo)
+
+
 REMOVE_OK = ('(self->roots.len == 0 || (g_abs[g_k] && ((self->roots.len > 0 && g_pre[g_k][0]) || (self->roots.len > 1 && g_pre[g_k][1]) || (self->roots.len > 2 && g_pre[g_k][2]))))')
 UNIT = {
     'name': 'stale',
@@ -17,11 +65,11 @@ UNIT = {
     'dumps': ['StaleFileRemovalCommand'],
     'types': {'std::string': 'pstr', 'string': 'pstr', 'basic_string<char>': 'pstr', 'BuildValue': 'struct bvalue', 'ResultFn': 'struct resultfn', 'Command::ResultFn': 'struct resultfn',
               'TaskInterface': 'struct TaskInterface', 'core::TaskInterface': 'struct TaskInterface', 'ProcessStatus': 'int', 'basic::ProcessStatus': 'int'},
-    'type_patterns': [(r'(llvm::)?ArrayRef<(std::)?(basic_string<char>|string).*>', 'vec_pstr'), (r'(std::)?vector<(std::)?(basic_string<char>|string).*>', 'vec_pstr'), (r'(std::)?function<void \(.*BuildValue.*\)>', 'struct resultfn')],
-    'by_value': ['vec_pstr', 'pstr', 'struct bvalue', 'struct TaskInterface', 'struct resultfn'],
-    'predefined_structs': ['bvalue', 'resultfn', 'TaskInterface'],
+    'type_patterns': [(r'(std::)?set<(std::)?(basic_string<char>|string).*>', 'vec_pstr'), (r'(std::)?vector<(llvm::)?StringRef.*>', 'struct plist'), (r'(llvm::)?ArrayRef<(std::)?(basic_string<char>|string).*>', 'vec_pstr'), (r'(std::)?vector<(std::)?(basic_string<char>|string).*>', 'vec_pstr'), (r'(std::)?function<void \(.*BuildValue.*\)>', 'struct resultfn')],
+    'by_value': ['struct plist', 'vec_pstr', 'pstr', 'struct bvalue', 'struct TaskInterface', 'struct resultfn'],
+    'predefined_structs': ['bvalue', 'resultfn', 'TaskInterface', 'plist'],
     'vec_types': {},
-    'no_translate': ['computeFilesToDelete', 'getDelegate', 'getBuildSystem', 'getFileSystem', 'pathIsPrefixedByPath', 'isStaleFileRemoval', 'makeStaleFileRemoval', 'strerror'],
+    'no_translate': ['set_difference', 'sort', 'getStaleFileList', 'getDelegate', 'getBuildSystem', 'getFileSystem', 'pathIsPrefixedByPath', 'isStaleFileRemoval', 'makeStaleFileRemoval', 'strerror'],
     'need_fields': {'StaleFileRemovalCommand': ['expectedOutputs', 'filesToDelete', 'roots', 'hasPriorResult', 'priorValue', 'computedFilesToDelete']},
     'calls': {
         'range:@vec_pstr': ('vec_pstr_size', 'vec_pstr_at'), 'm:@vec_pstr::size': 'vec_pstr_size', 'm:@vec_pstr::empty': 'vec_pstr_empty',
@@ -31,27 +79,34 @@ UNIT = {
         'm:BuildSystemDelegate::commandHadWarning': _drop_msg('stale_warning'), 'm:BuildSystemDelegate::commandHadNote': _drop_msg('stale_note'),
         'm:FileSystem::remove': 'stale_fs_remove($0)', 'm:@struct bvalue::isStaleFileRemoval': '($o->kind == 1)',
         'm:BuildValue::makeStaleFileRemoval': 'stale_make_value', 'fn:makeStaleFileRemoval': 'stale_make_value',
+        'm:@struct bvalue::getStaleFileList': 'stale_prior_list', 'fn:set_difference': _setdiff, 'fn:sort': _sort,
         'o:():@struct resultfn': 'stale_result($o, $0)', 'fn:__errno_location': 'verif_errno', 'fn:move': '$0',
     },
-    'call_patterns': [(r'c:ArrayRef<.*>\(.*\)', '$0'), (r'c:(basic_string<char>|string|std::string)\(const (basic_string<char>|string|std::string) &\)', '$0')],
+    'call_patterns': [(r'c:set<.*>\(.*iterator.*\)', _coll_ctor(1)), (r'c:vector<(std::)?(basic_string<char>|string).*>\(.*iterator.*\)', _coll_ctor(0)),
+                      (r'c:(std::)?vector<(llvm::)?StringRef.*>\(.*\)', '$0'), (r'c:ArrayRef<.*>\(.*\)', '$0'), (r'c:(basic_string<char>|string|std::string)\(const (basic_string<char>|string|std::string) &\)', '$0')],
     'globals': {'npos': '((size_t)-1)'},
     'prelude': '#include "models/base.h"\n#include "models/vec.h"\n#include "models/stale.h"\n',
     'after_structs': '#include "models/stale_after.h"\n',
-    'stubs': {
-        # std::set / std::set_difference: assumed -- fills filesToDelete once with (prior list minus expected list)
-        'StaleFileRemovalCommand_computeFilesToDelete': {'params': 'struct StaleFileRemovalCommand *self', 'requires': [], 'assigns': ['self->computedFilesToDelete'],
-                                                         'ensures': ['self->computedFilesToDelete != 0']},
-    },
+    'stubs': {},
     'functions': {
+        'StaleFileRemovalCommand::computeFilesToDelete': {
+            'requires': ['__CPROVER_is_fresh(self, sizeof(*self))', 'g_diffs == 0'],
+            'assigns': ['self->computedFilesToDelete', 'g_diffs', 'g_diff_a', 'g_diff_b', 'g_diff_out'],
+            'ensures': [
+                # computed once: filesToDelete := (set of the paths the previous successful run recorded) minus (set of the paths expected now)
+                ('P:C14', 'OLD(self->computedFilesToDelete) ? (g_diffs == 0) : (g_diffs == 1 && g_diff_a == (const void *)&g_prior_list_marker && g_diff_b == (const void *)self->expectedOutputs.ptr && g_diff_out == (const void *)&self->filesToDelete)'),
+                ('P:C14', 'self->computedFilesToDelete != 0'),
+            ],
+        },
         'StaleFileRemovalCommand::execute': {
             'requires': ['__CPROVER_is_fresh(self, sizeof(*self))', 'g_self == self', '__CPROVER_is_fresh(system, 1)',
                          '__CPROVER_is_fresh(self->filesToDelete.ptr, NF * sizeof(pstr)) && self->filesToDelete.len <= NF && self->filesToDelete.cap == NF',
                          '__CPROVER_is_fresh(self->roots.ptr, NR * sizeof(pstr)) && self->roots.len <= NR && self->roots.cap == NR',
                          'VEC_OK(self->expectedOutputs, pstr)'] +
                         ['__CPROVER_is_fresh(self->filesToDelete.ptr[%d].ptr, 1)' % i for i in range(4)] + ['__CPROVER_is_fresh(self->roots.ptr[%d].ptr, 1)' % i for i in range(3)] +
-                        ['g_started == 0 && g_finished == 0 && g_results == 0 && g_removes == 0 && !g_rm_k && !g_rm_other', 'g_k < NF'],
+                        ['g_started == 0 && g_finished == 0 && g_results == 0 && g_removes == 0 && !g_rm_k && !g_rm_other && g_diffs == 0', 'g_k < NF'],
             'assigns': ['g_started', 'g_finished', 'g_results', 'g_warnings', 'g_notes', 'g_removes', 'g_rm_k', 'g_rm_other', 'g_result_from', 'g_result_kind', 'g_finish_status', 'g_errno',
-                        'self->computedFilesToDelete'],
+                        'self->computedFilesToDelete', 'g_diffs', 'g_diff_a', 'g_diff_b', 'g_diff_out'],
             'ensures': [
                 # exactly one result, and it records the CURRENT expected-output list (what the next run will compare against), on every path
                 ('P:C14', 'g_results == 1 && g_result_kind == 1 && g_result_from == (const void *)self->expectedOutputs.ptr'),
